@@ -141,7 +141,7 @@ def main(claim):
         "setup_cmd": "python3 check.py --setup",
         "hooks": {
             "guard": "IAUTHD_C_VERIF",
-            "enable": "every harness is compiled by the check from /repo's working tree with -DIAUTHD_C_VERIF; no source line in /repo uses the guard (no hooks were needed: the timeout schedule point is reached with event_active on the public request structure)",
+            "enable": "every harness is compiled by the check from /repo's working tree with -DIAUTHD_C_VERIF; no source line in /repo uses the guard (no hooks were needed: the timeout schedule point is reached by activating the request timer found through the wrapped libevent calls event_new / event_base_once)",
             "baseline_off_cmd": "make -C /repo check",
             "source_commits": [],
             "add_only": True,
